@@ -22,7 +22,14 @@ namespace Orb.GeoJSON
 open Orb
 
 /-- A JSON / BSON document tree.  Numbers are float64 bit patterns (BSON int32/int64 are shipped as
-    the float64 the decoder converts them to). -/
+    the float64 the decoder converts them to).
+
+    `bad` exists in BSON only: an element that is framed correctly (type byte, key, length — the
+    struct decoder can `Skip()` it and a `bson.RawValue` field can copy it) but whose payload the
+    value reader refuses when it is READ: a boolean whose byte is neither 0 nor 1
+    (`bsonrw.valueReader.ReadBoolean`: "invalid byte for boolean").  Wherever a decoder looks at it,
+    it is a boolean: a type error where booleans are not accepted, a read error where they are
+    (`float64`, `interface{}`).  No Go value is ever written as `bad`. -/
 inductive Json where
   | null
   | bool (b : Bool)
@@ -30,6 +37,7 @@ inductive Json where
   | str (s : String)
   | arr (l : List Json)
   | obj (members : List (String × Json))
+  | bad
 deriving Repr, Inhabited
 
 abbrev G := Geom UInt64
@@ -58,6 +66,7 @@ def Json.beq : Json → Json → Bool
   | .str a, .str b => a == b
   | .arr a, .arr b => Json.beqList a b
   | .obj a, .obj b => Json.beqMembers a b
+  | .bad, .bad => true
   | _, _ => false
 def Json.beqList : List Json → List Json → Bool
   | [], [] => true
@@ -122,6 +131,22 @@ def hasInfList : List Json → Bool
 def hasInfMembers : Members → Bool
   | [] => false
   | (_, v) :: ms => hasInf v || hasInfMembers ms
+end
+
+mutual
+/-- the tree contains an unreadable element (`Json.bad`): decoding it into `interface{}`
+    (bson: `primitive.D` / `primitive.A` element by element) fails at that element -/
+def hasBad : Json → Bool
+  | .bad => true
+  | .arr l => hasBadList l
+  | .obj ms => hasBadMembers ms
+  | _ => false
+def hasBadList : List Json → Bool
+  | [] => false
+  | j :: js => hasBad j || hasBadList js
+def hasBadMembers : Members → Bool
+  | [] => false
+  | (_, v) :: ms => hasBad v || hasBadMembers ms
 end
 
 /-! ### marshalling: the document handed to the serialiser -/
@@ -271,7 +296,7 @@ def fieldKey (c : Codec) (k : String) : String :=
   | .bson => String.ofList (k.toList.map foldCharB)
 
 /-- into `float64`: a number; `null` leaves the zero; the bson float decoder also takes a boolean
-    (`true` ↦ 1); anything else is a type error (`none`). -/
+    (`true` ↦ 1; `ReadBoolean` fails on a `bad` one); anything else is a type error (`none`). -/
 def f64Of (c : Codec) : Json → Option UInt64
   | .num b => if c = .json ∧ isInf b then none else some b
   | .null => some 0
@@ -469,6 +494,7 @@ def decodeGeometry (c : Codec) : Json → R DG
   | .bool _ => .err .json
   | .num _ => .err .json
   | .str _ => .err .json
+  | .bad => .err .json
 /-- the struct decode, member by member in document order -/
 def decodeGMembers (c : Codec) : Members → GSt → R GSt
   | [], st => .ok st
@@ -485,6 +511,7 @@ def geomsOf (c : Codec) : Json → R (List (Option DG))
   | .num _ => .ok []
   | .str _ => .ok []
   | .obj _ => .ok []
+  | .bad => .ok []
 /-- elements of "geometries", in order; the first error or panic aborts -/
 def decodeGElems (c : Codec) : List Json → R (List (Option DG))
   | [] => .ok []
@@ -523,11 +550,13 @@ def fTypeErr (c : Codec) (st : FSt) : R FSt :=
   | .json => .ok { st with saved := true }
   | .bson => .err .json
 
-/-- "id" into `interface{}` -/
+/-- "id" into `interface{}` (an unreadable element anywhere inside is a read error) -/
 def fIdField (c : Codec) (v : Json) (st : FSt) : R FSt :=
   match v with
   | .null => .ok { st with id := none }
-  | v => .ok { st with id := some (valOf v), saved := st.saved || (c == .json && hasInf v) }
+  | v =>
+    if hasBad v then fTypeErr c st
+    else .ok { st with id := some (valOf v), saved := st.saved || (c == .json && hasInf v) }
 
 /-- "type" into `Type string` -/
 def fTypeField (c : Codec) (v : Json) (st : FSt) : R FSt :=
@@ -558,6 +587,8 @@ def fPropsField (c : Codec) (v : Json) (st : FSt) : R FSt :=
   match v with
   | .null => .ok { st with props := none }
   | .obj ms =>
+    if hasBadMembers ms then fTypeErr c st
+    else
     .ok { st with props := some (normKeys (valOfMembers ms)),
                   saved := st.saved || (c == .json && hasInfMembers ms) }
   | _ => fTypeErr c st
@@ -666,7 +697,9 @@ def fcFeaturesOf (c : Codec) : Option Json → R (Option (List (Option Feature))
 def fcExtrasOf (c : Codec) (ms : Members) : R (Option Members) :=
   match ms with
   | [] => .ok none
-  | _ => if c = .json ∧ hasInfMembers ms = true then .err .json else .ok (some (valOfMembers ms))
+  | _ =>
+    if hasBadMembers ms = true then .err .json
+    else if c = .json ∧ hasInfMembers ms = true then .err .json else .ok (some (valOfMembers ms))
 
 def reservedKey (k : String) : Bool := k == "type" || k == "bbox" || k == "features"
 
@@ -839,6 +872,7 @@ def okVal : Json → Bool
   | .num b => finite b
   | .arr l => okVals l
   | .obj ms => okMembers ms
+  | .bad => false
   | _ => true
 def okVals : List Json → Bool
   | [] => true
